@@ -338,7 +338,7 @@ Proof.
 Qed.
 
 Lemma subst_dollar_calm fuel W toks : Forall calm toks -> subst_dollar fuel W toks [] = Ok (toks, []).
-Proof. intros H. unfold subst_dollar. rewrite (dollar_pass_calm fuel W toks H). reflexivity. Qed.
+Proof. intros H. rewrite subst_dollar_eq. rewrite (dollar_pass_calm fuel W toks H). reflexivity. Qed.
 
 Lemma do_command_substitution_calm fuel W toks :
   Forall calm toks -> do_command_substitution fuel W toks = Ok (toks, []).
